@@ -3,10 +3,13 @@ package main
 import (
 	"encoding/json"
 	"fmt"
+	"net"
+	"net/http"
 	"os"
 	"path/filepath"
 	"sort"
 	"strings"
+	"sync"
 	"time"
 
 	toml "github.com/pelletier/go-toml"
@@ -321,9 +324,47 @@ func emitterRoundTrip(tree gen.OM, ys, js, ts string) string {
 }
 
 
+func showArgs(cfg c16cfg) [][]string {
+	var r [][]string
+	for _, t := range cfg.tasks {
+		r = append(r, []string{"show", t})
+	}
+	return r
+}
+
 func c16(c *h.Ctx) {
 	c.Rule = "abstract configurations drawn from a grammar over every documented key of tasks, stages, contexts and watchers (string-or-list fields in both forms, durations as strings and integers, booleans, numbers where strings are expected, nested executable map, variations, same-format imports, nested pipelines), each serialised as YAML (block / flow), JSON and TOML (tables / inline tables) by emitters written in the harness and validated against yaml.v2 / encoding/json / go-toml on every generated case; observed: exit status and output of list, show <task>, graph <pipeline> (edge set) and the trace tokens + exit status of running every task and pipeline; any pairwise difference refutes. non-trivial = distinct abstract configurations"
 	c.Assumptions = []string{"map-order dependent output is sorted, DOT node ids are ignored, durations in summaries and ANSI colours are not compared", "values TOML cannot express (null, heterogeneous arrays) are not generated", "tokens of a pipeline run are compared as a multiset (stages may overlap)"}
+	// loop-back HTTP server for the readURL path
+	var srvMu sync.Mutex
+	served := map[string][2]string{}
+	urlBase := ""
+	if ln, err := net.Listen("tcp", "127.0.0.1:0"); err == nil {
+		urlBase = "http://" + ln.Addr().String()
+		go http.Serve(ln, http.HandlerFunc(func(w http.ResponseWriter, r *http.Request) {
+			srvMu.Lock()
+			e, ok := served[r.URL.Path]
+			srvMu.Unlock()
+			if !ok {
+				http.NotFound(w, r)
+				return
+			}
+			if e[0] != "" {
+				w.Header().Set("Content-Type", e[0])
+			} else {
+				w.Header()["Content-Type"] = nil
+			}
+			w.Write([]byte(e[1]))
+		}))
+		defer ln.Close()
+	} else {
+		c.Count("no_loopback_listener", 1)
+	}
+	serve := func(path, ctype, body string) {
+		srvMu.Lock()
+		served[path] = [2]string{ctype, body}
+		srvMu.Unlock()
+	}
 	n := c.N(120, 4000)
 	h.Par(n, 12, func(i int) {
 		r := h.NewRand(c.Seed*104729+int64(i), "c16")
@@ -407,6 +448,37 @@ func c16(c *h.Ctx) {
 				run("run-pipeline:"+p, true, "-o", "raw", p)
 			}
 			results[ext] = obs
+		}
+		// the same three serialisations fetched over HTTP (readURL picks the format from the content type or
+		// the extension, YAML otherwise); only for configurations without imports (relative imports of a URL are
+		// outside the statement)
+		if urlBase != "" && cfg.imported == nil && i%c.N(3, 1) == 0 {
+			d := real + "/yaml"
+			variants := []struct{ name, path, ctype, body string }{
+				{"url-json-by-content-type", fmt.Sprintf("/%d/config", i), "application/json; charset=utf-8", mk(".json", cfg.tree)},
+				{"url-json-by-extension", fmt.Sprintf("/%d/cfg.json", i), "text/plain", mk(".json", cfg.tree)},
+				{"url-toml-by-extension", fmt.Sprintf("/%d/cfg.toml", i), "text/plain", mk(".toml", cfg.tree)},
+				{"url-yaml-by-extension", fmt.Sprintf("/%d/cfg.yaml", i), "", mk(".yaml", cfg.tree)},
+				{"url-yaml-by-default", fmt.Sprintf("/%d/plain", i), "application/octet-stream", mk(".yaml", cfg.tree)},
+			}
+			for _, v := range variants {
+				serve(v.path, v.ctype, v.body)
+				for _, args := range append([][]string{{"list"}}, showArgs(cfg)...) {
+					res := tc{Dir: d, Env: []string{"TRACE=" + d + "/trace.url"}, Timeout: 40 * time.Second}.run(c, append([]string{"-c", urlBase + v.path}, args...)...)
+					c.Eval(1)
+					c.Count("url_observations", 1)
+					o := fmt.Sprintf("exit=%d\n%s", res.Exit, strings.ReplaceAll(stripANSI(string(res.Stdout)), d, "<DIR>"))
+					want := results[".yaml"][strings.Join(args, ":")]
+					if j := strings.Index(want, "\ntrace="); j >= 0 {
+						want = want[:j]
+					}
+					want = strings.Replace(want, " timedout=false", "", 1)
+					if o != want {
+						c.Violate("format-difference/"+v.name, fmt.Sprintf("`%s` of the configuration fetched from %s differs from the YAML file:\n--- url\n%s\n--- yaml file\n%s\nstderr: %s", strings.Join(args, " "), v.path, clip(o, 800), clip(want, 800), clip(stripANSI(string(res.Stderr)), 300)),
+							map[string]interface{}{"variant": v.name, "content_type": v.ctype, "body": v.body})
+					}
+				}
+			}
 		}
 		base := results[".yaml"]
 		var names []string
